@@ -6,11 +6,17 @@ import (
 
 // symStrings: a list of 0..2 arbitrary short strings (nil when empty, as protojson leaves it).
 func symStrings(name string) []string {
-	switch verif.Choice(name+".len", 3) {
+	n := 3
+	if verif.Thorough() {
+		n = 4 // lists of up to three items
+	}
+	switch verif.Choice(name+".len", n) {
 	case 1:
-		return []string{verif.String(name+"0", 2)}
+		return []string{verif.String(name+"0", verif.L(2))}
 	case 2:
-		return []string{verif.String(name+"0", 2), verif.String(name+"1", 2)}
+		return []string{verif.String(name+"0", verif.L(2)), verif.String(name+"1", verif.L(2))}
+	case 3:
+		return []string{verif.String(name+"0", verif.L(2)), verif.String(name+"1", verif.L(2)), verif.String(name+"2", verif.L(2))}
 	}
 	return nil
 }
@@ -26,7 +32,7 @@ func refStrings(xs []string) []byte {
 // VerifC05UnwrapMap: a map whose value message has an unwrap list: every entry of the map is
 // written as "<key>": [items...] — also when the list is empty — and read back.
 func VerifC05UnwrapMap() {
-	m := &UnwrapMapMsg{Id: verif.String("id", 2)}
+	m := &UnwrapMapMsg{Id: verif.String("id", verif.L(2))}
 	hasA, hasB := verif.Bool("a.present"), verif.Bool("b.present")
 	if hasA || hasB {
 		m.ByKey = map[string]*StringList{}
